@@ -265,6 +265,29 @@ func (n *nrun) awaitDone(p *nproc, d time.Duration) {
 	case pt := <-p.at:
 		p.cur = pt
 	case <-time.After(d):
+		if d >= time.Second {
+			notifyStuck.Add(1)
+		}
+	}
+}
+
+// notifyStuck counts calls that did not return within seconds although they had to. Every one of them is recorded
+// (and judged a violation by TLC); after a few dozen the remaining scenarios are skipped: code that deadlocks would
+// otherwise cost 5 s per wait in thousands of scenarios.
+var notifyStuck atomic.Int64
+
+func stuckBudgetGone() bool { return notifyStuck.Load() >= 24 }
+
+// bounded runs a call that may never return (Publish / Close on a deadlocked notifier) in a goroutine of its own.
+func bounded(f func()) bool {
+	done := make(chan struct{})
+	go func() { f(); close(done) }()
+	select {
+	case <-done:
+		return true
+	case <-time.After(5 * time.Second):
+		notifyStuck.Add(1)
+		return false
 	}
 }
 
@@ -402,7 +425,14 @@ func blockingScenario(id int, seed int64, root string, tw *TraceWriter) {
 	os.MkdirAll(dir, 0o700)
 	defer os.RemoveAll(dir)
 	x := NewExec(&History{ID: id, Keys: true, Times: false, Mono: true}, dir, tw, Obs{})
-	bl, err := klevdb.OpenBlocking(dir, klevdb.Options{KeyIndex: true, Rollover: int64(100 + rng.Intn(300))})
+	var bl blog
+	var err error
+	opts := klevdb.Options{KeyIndex: true, Rollover: int64(100 + rng.Intn(300))}
+	if id%2 == 1 { // every other scenario through the typed wrappers (OpenTBlocking)
+		bl, err = openTypedBL(dir, opts)
+	} else {
+		bl, err = klevdb.OpenBlocking(dir, opts)
+	}
 	if err != nil {
 		tw.Emit(map[string]any{"ev": "bimmediate", "hid": id, "returned": false, "r": bres{Err: "open: " + err.Error(), Msgs: []MM{}}, "ref": bres{Msgs: []MM{}}})
 		return
@@ -417,7 +447,7 @@ func blockingScenario(id int, seed int64, root string, tw *TraceWriter) {
 			x.vals[string(v)] = len(x.vals) + 1
 			b = append(b, klevdb.Message{Key: keyBytes[[]string{"a", "b", "g"}[vid%3]], Value: v, Time: time.UnixMicro(x.t0 + int64(vid))})
 		}
-		bl.Publish(b)
+		bounded(func() { bl.Publish(b) })
 	}
 	start := func(off int64, key string) *bwaiter {
 		ctx, cancel := context.WithCancel(context.Background())
@@ -450,6 +480,9 @@ func blockingScenario(id int, seed int64, root string, tw *TraceWriter) {
 			w.res = &r
 			return true
 		case <-time.After(d):
+			if d >= time.Second {
+				notifyStuck.Add(1)
+			}
 			return false
 		}
 	}
@@ -523,7 +556,7 @@ func blockingScenario(id int, seed int64, root string, tw *TraceWriter) {
 	w1 := start(next, "")
 	w2 := start(next+3, "a")
 	time.Sleep(5 * time.Millisecond)
-	bl.Close()
+	bounded(func() { bl.Close() })
 	for _, w := range []*bwaiter{w1, w2} {
 		ok := await(w, 5*time.Second)
 		r := empty
@@ -607,16 +640,16 @@ func runNotify(r *SeqRun) {
 			fp := filepath.Join(r.Scratch, fmt.Sprintf("trace-ntf-%02d.ndjson", w))
 			steps, _ := NewTraceWriter(sp, nil)
 			finals, _ := NewTraceWriter(fp, r.P.KF)
-			for i := w; i < len(scheds); i += workers {
+			for i := w; i < nblock && !stuckBudgetGone(); i += workers {
+				blockingScenario(2000000+i, r.Seed, r.Scratch, finals)
+			}
+			for i := w; i < len(scheds) && !stuckBudgetGone(); i += workers {
 				if replaySchedule(i, scheds[i], steps, finals) {
 					drifts.Add(1)
 				}
 			}
-			for i := w; i < nfree; i += workers {
+			for i := w; i < nfree && !stuckBudgetGone(); i += workers {
 				freeRunNotify(1000000+i, r.Seed, finals)
-			}
-			for i := w; i < nblock; i += workers {
-				blockingScenario(2000000+i, r.Seed, r.Scratch, finals)
 			}
 			steps.Close()
 			finals.Close()
